@@ -468,3 +468,82 @@ def c01j(ctx):
                     ctx.check(rel == 'mapproxy/service/kml.py', '%s:limit-true-call' % fn.short, 'limit=True only in the KML service', fn, c)
     if n < 15:
         raise Undecided('only %d tile_bbox call sites found' % n)
+
+
+@rule('C01.k', floor=2)
+def c01k(ctx):
+    """a tile source hands its tile on as the answer to the query, unresampled: the one tile that `get_affected_tiles` finds must *be* the
+    requested rectangle, not merely contain it (a source grid with fewer or other levels answers with the nearest level it has).  On
+    every path to `client.get_tile` the bbox of the affected tile has been compared with the bbox of the query (bbox_equals) and the
+    grid of tiles with (1, 1)"""
+    fn = ctx.fn('mapproxy/source/tile.py:TiledSource.get_map')
+    g = fn.cfg
+    defs = Defs(fn.node)
+    gets = g.find(lambda x: is_call(x, 'self.client.get_tile'))
+    if not gets:
+        raise Undecided('TiledSource.get_map: client.get_tile call not found')
+    aff = [(v, sel) for nm, ds in defs.defs.items() for v, sel in ds if is_call(v, 'self.grid.get_affected_tiles')]
+    bbox_names = {nm for nm, ds in defs.defs.items() for v, sel in ds if is_call(v, 'self.grid.get_affected_tiles') and sel == 0}
+    grid_names = {nm for nm, ds in defs.defs.items() for v, sel in ds if is_call(v, 'self.grid.get_affected_tiles') and sel == 1}
+
+    def is_bbox_test(at):
+        c = at.expr if at.op is None else None
+        return c is not None and is_call(c, 'bbox_equals') and len(c.args) >= 2 and \
+            {unparse(c.args[0]), unparse(c.args[1])} & bbox_names and 'query.bbox' in {unparse(c.args[0]), unparse(c.args[1])}
+    ok = bool(aff) and bool(bbox_names) and all(g.guarded(n, is_bbox_test, True) for n, x in gets)
+    ctx.check(ok, 'TiledSource.get_map:tile-is-the-requested-rectangle', 'the tile is only fetched when its bbox equals the bbox of the query', fn,
+              fail='TiledSource.get_map answers with the tile that contains the query without comparing its bbox with the query bbox: a coarser '
+                   'source level is handed on as if it were the requested tile')
+    ok = bool(grid_names) and all(g.guarded(n, lambda at: at.op == '==' and {unparse(at.left), unparse(at.right)} & grid_names and
+                                            '(1, 1)' in {unparse(at.left), unparse(at.right)}, True) for n, x in gets)
+    ctx.check(ok, 'TiledSource.get_map:single-tile', 'the tile is only fetched when the query falls into exactly one tile', fn)
+
+
+@rule('C01.l', floor=3)
+def c01l(ctx):
+    """a tile is cut with its own rectangle: where the tile manager walks over the tiles of a request and tests or clips each against
+    the coverage of the cache, the rectangle used inside the loop body is `self.grid.tile_bbox(<this tile>.coord)`, computed in that
+    iteration before it is used (a rectangle left over from an earlier loop, or hoisted out of the loop, places the clip edge of every
+    tile where it belongs for one tile only)"""
+    fn = ctx.fn('mapproxy/cache/tile.py:TileManager.load_tile_coords')
+    g = fn.cfg
+    n_sites = 0
+    seen_names = {}
+    for x in sorted((y for y in fn.walk() if isinstance(y, ast.Call)), key=lambda y: (y.lineno, y.col_offset)):
+        bbox = None
+        if is_call(x, 'mask_image_source_from_coverage') and len(x.args) > 1:
+            bbox = x.args[1]
+        elif isinstance(x.func, ast.Attribute) and x.func.attr in ('intersects', 'contains') and 'coverage' in unparse(x.func.value) and x.args:
+            bbox = x.args[0]
+        if bbox is None:
+            continue
+        loop = enclosing(x, ast.For)
+        if loop is None or not isinstance(loop.target, ast.Name):
+            continue
+        n_sites += 1
+        tv = loop.target.id
+        ok = False
+        seen_names[call_name(x).split('.')[-1]] = k_ = seen_names.get(call_name(x).split('.')[-1], 0) + 1
+        if is_call(bbox, 'self.grid.tile_bbox') and bbox.args and unparse(bbox.args[0]) == tv + '.coord':
+            ok = True
+        elif isinstance(bbox, ast.Name):
+            own = [s for s in ast.walk(loop) if isinstance(s, ast.Assign) and len(s.targets) == 1 and unparse(s.targets[0]) == bbox.id and
+                   enclosing(s, ast.For) is loop]
+            ok = bool(own) and all(is_call(s.value, 'self.grid.tile_bbox') and len(s.value.args) == 1 and not s.value.keywords and
+                                   unparse(s.value.args[0]) == tv + '.coord' for s in own) and \
+                any(g.dominates(g.node_for(s), g.node_for(x)) for s in own)
+        ctx.check(ok, 'TileManager.load_tile_coords:%s#%d:own-rectangle' % (call_name(x).split('.')[-1], k_), 'the coverage is tested / the tile is clipped with tile_bbox(%s.coord) of the iteration' % tv,
+                  fn, x, fail='%s(...) in the loop over the tiles uses a rectangle (%s) that is not computed from this tile in this iteration: '
+                              'every tile is tested / clipped with the rectangle of another tile' % (call_name(x), unparse(bbox)))
+    if n_sites < 3:
+        raise Undecided('TileManager.load_tile_coords: only %d coverage tests / clips inside tile loops found' % n_sites)
+
+
+@rule('C01.m', floor=2)
+def c01m(ctx):
+    """shared rule C17.b, re-evaluated for this property: what a reprojecting WMS source asks upstream -- the plain request and the
+    coverage-clipped sub request alike -- is the query in the source SRS that was computed for the reprojection (bbox, size and SRS
+    belong together; the client's query in its own SRS, sent to a server that is then reprojected from the source SRS, puts the content
+    in the wrong place)"""
+    from ..engine import share
+    share(ctx, 'C17', {'C17.b'}, keep=lambda o: '_get_transformed' in o.construct)
